@@ -87,6 +87,8 @@ def label_to_event(label):
         return dict(op="BulkKids", l=a[0], k="", a=0, b=0)
     if name == "Burn":
         return dict(op="Burn", l=0, k="", a=0, b=0)
+    if name == "Lookup":
+        return dict(op="Lookup", l=a[0], k="", a=0, b=0)
     if name in ("LogNest", "EachNew"):
         return dict(op=name, l=a[0], k="", a=a[1], b=0)
     if name == "MkHandler":
@@ -220,6 +222,8 @@ def random_behaviours(c, rng, count, depth, max_loggers):
                 if not burnt:
                     burnt = True
                     beh.append(dict(op="Burn", l=0, k="", a=0, b=0))
+            elif op == "Lookup":
+                beh.append(dict(op="Lookup", l=l, k="", a=0, b=0))
             elif op == "LogNest":
                 beh.append(dict(op="LogNest", l=l, k="", a=rng.randint(1, n), b=0))
             elif op == "EachNew":
